@@ -206,6 +206,25 @@ static inline size_t vit_checked_index(size_t i, size_t n)
         return cell;                                                                          \
     }
 
+/* ---- ghost-element set: membership of ONE arbitrary element Z (a ghost, chosen by the harness) is tracked exactly, the
+ * membership of every other element is unconstrained.  Since Z is arbitrary, a fact proved about "Z in the set" holds
+ * for every element; the set's size is unbounded.                                                                     */
+#define VSET_DECL(NAME, K)                                                                    \
+    typedef struct                                                                            \
+    {                                                                                         \
+        bool has_z;                                                                           \
+    } NAME;                                                                                   \
+    typedef K NAME##_elem_t;                                                                  \
+    K NAME##_Z;                                                                               \
+    static inline NAME NAME##_new(void) { return (NAME){0}; }                                 \
+    static inline void NAME##_insert_1(NAME *s, K k)                                          \
+    {                                                                                         \
+        if (k == NAME##_Z)                                                                    \
+            s->has_z = 1;                                                                     \
+    }                                                                                         \
+    static inline size_t NAME##_count(const NAME *s, K k) { return k == NAME##_Z ? (s->has_z ? 1 : 0) : (nondet_bool() ? 1 : 0); } \
+    static inline void NAME##_clear(NAME *s) { s->has_z = 0; }
+
 /* ---- strings as identities (sid): equal iff same id; "" is 0 -------------------------------
  * exact for code that only assigns, compares and tests emptiness                            */
 typedef uint64_t sid;
